@@ -46,6 +46,9 @@ func tlbInit() {
 			}
 			d := tlbU.Describe(t)
 			c, why := tlbU.Coverage(d)
+			if tlbx.NotTlb(n) {
+				c, why = "not-tlb", []string{tlbx.NonWf[n]}
+			}
 			tt := &tlbType{Name: n, T: t, D: d, Class: c, Why: why}
 			if c == "model" || c == "partial" {
 				tt.Ty, tt.Env = tlbU.TyEnvText(d)
@@ -258,4 +261,35 @@ func goReDecode(a []string) string {
 	c := h.BuildCells(h.ParseTable(a[1]))[0]
 	ans, _ := reDecode(tt, c)
 	return ans
+}
+
+// go.stable <GoType> <val>: for types whose decoder is hand-written over dependent fields (flags that switch other
+// fields on and off) a structurally generated value may lie outside the domain; what must hold for ANY value is that
+// nothing panics and that a decoded value is a fixed point: v -Marshal-> c -Unmarshal-> v2 -Marshal-> c2 -Unmarshal-> v3
+// with v3 = v2 and hash(c2) reproduced by encoding v3.
+func goStable(a []string) string {
+	tt := tlbLookup(a[0])
+	v, err := tlbx.Read(a[1], tt.T)
+	if err != nil {
+		return "bad-op"
+	}
+	c, err := marshalValue(v)
+	if isPanic(err) {
+		return "FAIL marshal-panic " + trunc(err.Error())
+	}
+	if err != nil {
+		return "ok enc-err"
+	}
+	v2, err := unmarshalInto(c, tt.T)
+	if isPanic(err) {
+		return "FAIL unmarshal-panic " + trunc(err.Error())
+	}
+	if err != nil {
+		return "ok dec-err"
+	}
+	r := roundTrip(tt, v2)
+	if r == "ok enc-err" {
+		return "FAIL decoded-value-not-encodable"
+	}
+	return r
 }
